@@ -3,7 +3,7 @@
    result with the physical layout of the chunk that the real compaction (streaming or not) wrote: same column set (the
    union of the inputs' columns), same segments, same cells in the same rows. *)
 From Coq Require Import NArith ZArith List Bool Arith.
-From OG Require Import C03.ColModel.
+From OG Require Import C03.ColModel C03.ColLimModel.
 Import ListNotations.
 
 Definition cellv := option Z.     (* None = nil *)
@@ -15,6 +15,7 @@ Record chunk := mkchunk {
 
 Record colcase := mkcc {
   cc_max : nat;                (* max-rows-per-segment *)
+  cc_limit : nat;              (* max-segment-limit if the case runs with a small one (the series may be split over several files), else 0 *)
   cc_fields : list N;          (* the union of the column ids, in the compactor's (name) order *)
   cc_in : list chunk;          (* the series' chunk in every input file, in file order *)
   cc_out : list chunk          (* the series' chunk in every output file *)
@@ -83,14 +84,40 @@ Definition colcase_code (mode : padmode) (cc : colcase) : nat :=
   | _ => 51
   end.
 
+(* ---- with a max-segment-limit: the series' chunk in EVERY output file, in file order, against ColLimModel ---- *)
+Definition lim_field (cc : colcase) (f : N) : list (list (list cellv)) :=
+  compact_col_lim None (cc_max cc) (cc_limit cc) (map (src_of_field f) (cc_in cc)).
+Definition lim_time (cc : colcase) : list (list (list cellv)) :=
+  compact_col_lim None (cc_max cc) (cc_limit cc) (map src_of_time (cc_in cc)).
+
+Definition files_eqb := list_eqb segs_eqb.
+
+Definition in_fields (cc : colcase) : list N :=
+  filter (fun f => existsb (fun c => match lookup f (k_c c) with Some _ => true | None => false end) (cc_in cc)) (cc_fields cc).
+
+Definition colcase_lim_code (cc : colcase) : nat :=
+  if negb (files_eqb (map (fun o => map (map (fun t => Some t)) (k_t o)) (cc_out cc)) (lim_time cc)) then 56
+  else if negb (forallb (fun f => files_eqb (map (fun o => match lookup f (k_c o) with Some segs => segs | None => [] end) (cc_out cc))
+                                            (lim_field cc f)) (in_fields cc)) then 57
+  else if negb (forallb (fun o => forallb (fun e => existsb (N.eqb (fst e)) (in_fields cc)) (k_c o)) (cc_out cc)) then 54
+  else if negb (forallb (fun o => Nat.leb (length (k_t o)) (cc_limit cc)) (cc_out cc)) then 58
+  else 0.
+
 (* (index, code under the repaired padding PadActual, code under today's counter padding PadCounter) whenever the repaired
    model does not agree; on well-formed inputs the two models coincide (ColProofs.actual_eq_counter_on_wf) *)
 Fixpoint col_mismatches_from (i : nat) (l : list colcase) : list (nat * nat * nat) :=
   match l with
   | [] => []
-  | c :: r => match colcase_code PadActual c with
-              | 0 => col_mismatches_from (S i) r
-              | code => (i, code, colcase_code PadCounter c) :: col_mismatches_from (S i) r
-              end
+  | c :: r =>
+      match cc_limit c with
+      | 0 => match colcase_code PadActual c with
+             | 0 => col_mismatches_from (S i) r
+             | code => (i, code, colcase_code PadCounter c) :: col_mismatches_from (S i) r
+             end
+      | _ => match colcase_lim_code c with
+             | 0 => col_mismatches_from (S i) r
+             | code => (i, code, code) :: col_mismatches_from (S i) r
+             end
+      end
   end.
 Definition col_mismatches := col_mismatches_from 0.
